@@ -4,7 +4,7 @@ CONSTANTS
   Classes <- AB
   MaxNameLen = 3
   FFE = 99
-INVARIANTS OnlyConfigured ExactlyActive
+INVARIANTS OnlyConfigured ExactlyActive NoStrangers RightIndex
 PROPERTY TraceNeverWiped
 CONSTRAINT HWM
 POSTCONDITION TraceAccepted
